@@ -316,6 +316,8 @@ class Interp(object):
             return self.truthy(v.length)
         if isinstance(v, SObj) and self.models.listobj(v) is not None:
             return len(self.models.listobj(v)) > 0
+        if isinstance(v, SObj) and self.models.dictobj(v) is not None:
+            return len(self.models.dictobj(v)) > 0
         if isinstance(v, SObj):
             lenf = self.class_attr(v.cls, "__len__")
             if lenf is not None:
@@ -380,6 +382,13 @@ class Interp(object):
                 return self.call_value(BoundMethod(raw.fget, obj), [], {})
             if name in obj.fields:
                 return obj.fields[name]
+            if raw is not None and not isinstance(raw, (types.FunctionType, staticmethod, classmethod, property)):
+                # a method inherited from builtin dict / list: delegate to the underlying container
+                under = self.models.dictobj(obj) if self.models.dictobj(obj) is not None else self.models.listobj(obj)
+                if under is not None:
+                    h = self.models.attr_model(self, under, name)
+                    if h is not NotImplemented:
+                        return h
             if raw is not None:
                 return self.bind(raw, obj)
             key = ("getattr", getattr(obj.cls, "__name__", str(obj.cls)), name)
@@ -542,6 +551,17 @@ class Interp(object):
             return self.models.attrs_init(self, cls, obj, args, kwargs)
         if isinstance(init, types.FunctionType):
             self.call_value(BoundMethod(init, obj), args, kwargs)
+        elif init is dict.__init__ and issubclass(cls, dict):
+            if args:
+                src = args[0]
+                for k in (self.iterate(src) if not isinstance(src, dict) else src.keys()):
+                    if isinstance(src, dict):
+                        self.store_subscript(self.models.dictobj(obj), k, src[k])
+                    else:
+                        self.store_subscript(self.models.dictobj(obj), k[0], k[1])
+            self.models.dictobj(obj)
+        elif init is list.__init__ and issubclass(cls, list):
+            self.models.listobj(obj).extend(self.iterate(args[0]) if args else [])
         elif init is not object.__init__ and init is not None:
             raise Undecided("constructor of %s" % cls.__name__)
         return obj
@@ -967,12 +987,16 @@ class Interp(object):
         """value -> python list (or iterator) of element values; shape must be concrete."""
         if isinstance(v, SObj) and self.models.listobj(v) is not None:
             return list(self.models.listobj(v))
+        if isinstance(v, SObj) and self.models.dictobj(v) is not None:
+            from .models_ext import unwrap_key
+            return [unwrap_key(k) for k in self.models.dictobj(v).keys()]
         if isinstance(v, (list, tuple)):
             return list(v)
-        if isinstance(v, (range, set, frozenset, bytes, str)):
+        if isinstance(v, (set, frozenset, dict)):
+            from .models_ext import unwrap_key
+            return [unwrap_key(k) for k in v]
+        if isinstance(v, (range, bytes, str)):
             return list(v)
-        if isinstance(v, dict):
-            return list(v.keys())
         r = self.models.iterate(self, v, lazy)
         if r is not NotImplemented:
             return r
